@@ -271,7 +271,7 @@ class GatedScanner(gh.TokenScanner):
     def read(self):
         g, i = self._gate, self._idx
         g.arrived[i].set()
-        if not g.go[i].wait(20):
+        if not g.go[i].wait(180):
             raise HarnessError("scheduler never granted parser %d its turn" % i)
         g.go[i].clear()
         return super().read()
@@ -295,7 +295,7 @@ def run_schedule(texts, dflts, schedule):
     for t in threads:
         t.start()
     for i in range(n):
-        if not gate.arrived[i].wait(20):
+        if not gate.arrived[i].wait(180):
             raise HarnessError("parser %d never reached its first read" % i)
     switches = 0
     last = None
@@ -309,10 +309,10 @@ def run_schedule(texts, dflts, schedule):
         last = i
         gate.arrived[i].clear()
         gate.go[i].set()
-        if not gate.arrived[i].wait(20):
+        if not gate.arrived[i].wait(180):
             raise HarnessError("parser %d neither came back for a line nor finished" % i)
     for t in threads:
-        t.join(20)
+        t.join(180)
         if t.is_alive():
             raise HarnessError("a parser thread outlived its case")
     return results, switches
